@@ -219,6 +219,12 @@ func candidates(sc *Scenario, last *Result) []*Scenario {
 					add(func(c *Scenario) bool { c.Groups[gi][ji].Fault.Budget = b; return true })
 				}
 			}
+			if len(j.CloseAt) > 0 {
+				add(func(c *Scenario) bool { c.Groups[gi][ji].CloseAt = nil; return true })
+			}
+			if j.Warm > 0 {
+				add(func(c *Scenario) bool { c.Groups[gi][ji].Warm /= 2; return true })
+			}
 			if j.Coords != "" && j.Coords != "index" {
 				add(func(c *Scenario) bool { c.Groups[gi][ji].Coords = "index"; return true })
 			}
